@@ -582,9 +582,10 @@ def check_C11(run):
     if reqs:
         run.sample({"request": reqs[0], "implementation": impl[0][:300]})
         run.sample({"request": reqs[-1], "implementation": impl[-1][:300]})
-    run.cov["explanation"] = ("PARTIAL proof: rule-draw detection lemmas on the model (a successor with clock 100 or an earlier occurrence in "
-                              "the look-back window returns DRAW_SCORE at every positive depth); the root-level statement rests on the "
-                              "runs above against the model and the constant")
+    run.cov["explanation"] = ("proof on the model: rule-draw detection lemmas (a successor with clock 100 or an earlier occurrence in the look-back window returns "
+                              "DRAW_SCORE at every positive depth) and the root-level theorem C11_root_all_drawn (empty table, every successor rule-drawn, no key clash with "
+                              "the root: every reported iteration >= 2 scores -DRAW_SCORE and the answer is legal, every stop predicate and fuel); that the histories the UCI "
+                              "layer builds make the successors rule-drawn, and the tie to the binary, rest on the runs above against the model and the constant")
 
 
 # ====================================================================== C12
